@@ -213,6 +213,12 @@ def run(ctx):
         if ctx.prop == "C08":
             ctx.require(any(k.startswith("call_mockpanic_") for k in ctl["stats"]),
                         "no mock-induced panic under a controlled schedule")
+            # errors induced while the original is already being torn down (destructor of a lent value)
+            late, v5 = engine_c.run_sched(ctx, "c08-late-error", 64 if ctx.tier == "quick" else 2000)
+            engine_c.report(ctx, v5, "C08", "error during teardown")
+            ctx.require(late["stats"].get("late_errors", 0) > 0, "the late-error stage did not run")
+            concurrent["late_error_scenarios"] = late["executions"]
+            total_eval += late["executions"]
         total_eval += ctl["executions"] + st["executions"]
         total_distinct += ctl["distinct_schedules"]
         if ctx.prop == "C02":
